@@ -37,6 +37,10 @@ pub struct Pki {
     /// certificate for IP 127.0.0.1 only
     pub ip_der: Vec<u8>,
     pub ip_key_der: Vec<u8>,
+    /// trusted certificate whose subject CN is the good name but whose SAN lists another name
+    /// only (a name is verified against the SAN when there is one, never against the CN)
+    pub cn_der: Vec<u8>,
+    pub cn_key_der: Vec<u8>,
 }
 
 pub const GOOD_NAME: &str = "sim.test";
@@ -66,7 +70,14 @@ pub fn pki() -> &'static Pki {
         let (other_der, other_key_der) = leaf(vec!["other.test".into()], &ca, &ca_key);
         let (rogue_der, rogue_key_der) = leaf(vec![GOOD_NAME.into()], &rogue_ca, &rogue_ca_key);
         let (ip_der, ip_key_der) = leaf(vec!["127.0.0.1".into()], &ca, &ca_key);
-        Pki { ca_der: ca.der().to_vec(), leaf_der, leaf_key_der, other_der, other_key_der, rogue_der, rogue_key_der, ip_der, ip_key_der }
+        let (cn_der, cn_key_der) = {
+            let mut p = CertificateParams::new(vec!["other.test".to_string()]).unwrap();
+            p.distinguished_name.push(rcgen::DnType::CommonName, GOOD_NAME);
+            let k = KeyPair::generate().unwrap();
+            let c = p.signed_by(&k, &ca, &ca_key).unwrap();
+            (c.der().to_vec(), k.serialize_der())
+        };
+        Pki { ca_der: ca.der().to_vec(), leaf_der, leaf_key_der, other_der, other_key_der, rogue_der, rogue_key_der, ip_der, ip_key_der, cn_der, cn_key_der }
     })
 }
 
@@ -242,6 +253,7 @@ struct Conn {
     /// the server has started / completed `poll_shutdown` on the stream
     s_shutting: bool,
     s_shut: bool,
+    s_reads: u32,
 }
 
 fn payload(seed: u64, len: usize, salt: u64) -> Vec<u8> {
@@ -558,6 +570,7 @@ async fn run_accept(cfg: &Config, ch: &mut Chooser<Action>, ctx: &mut RunCtx) ->
                     srv_blocked: false,
                     s_shutting: false,
                     s_shut: false,
+                    s_reads: 0,
                 };
                 c.pump_client_out();
                 conns.push(c);
@@ -829,9 +842,20 @@ async fn run_accept(cfg: &Config, ch: &mut Chooser<Action>, ctx: &mut RunCtx) ->
                 let mut cx = Context::from_waker(&w);
                 let mut buf = vec![0u8; 8192];
                 let mut rb = ReadBuf::new(&mut buf);
+                // every other read goes into a buffer that already holds something (read_exact
+                // style): what was there stays, what is read is appended
+                c.s_reads += 1;
+                let pre: &[u8] = if c.s_reads % 2 == 0 { b"<kept>" } else { b"" };
+                rb.put_slice(pre);
                 match c.stream.as_mut().unwrap().as_mut().poll_read(&mut cx, &mut rb) {
                     Poll::Ready(Ok(())) => {
-                        let got = rb.filled().to_vec();
+                        if !rb.filled().starts_with(pre) {
+                            return Some(Violation::new("payload-corrupted", format!("stream {i}: a read into a partly filled buffer overwrote the {} bytes it already held", pre.len())).fact("acceptor", format!("{:?}", cfg.kind)));
+                        }
+                        if !pre.is_empty() {
+                            ctx.bump("probe.read_into_partly_filled_buffer");
+                        }
+                        let got = rb.filled()[pre.len()..].to_vec();
                         c.s_read.extend_from_slice(&got);
                         ev!(ctx, "server #{i} reads");
                     }
@@ -1031,7 +1055,7 @@ impl Engine for TlsSim {
     }
     fn required_probes(prop: &str, _tier: Tier) -> Vec<&'static str> {
         if prop == "C18" {
-            vec!["probe.timeout_outcome", "probe.tls_error_outcome", "probe.stream_outcome", "probe.not_ready_at_limit", "probe.release_at_limit", "probe.payload_roundtrip", "probe.server_write_backpressure", "probe.server_vectored_write", "probe.server_vectored_write_partial", "probe.server_vectored_write_cut_in_second_slice", "probe.two_backends_on_one_thread", "probe.server_shutdown_completed", "probe.shutdown_under_backpressure", "probe.vectored_write_empty_first_slice"]
+            vec!["probe.timeout_outcome", "probe.tls_error_outcome", "probe.stream_outcome", "probe.not_ready_at_limit", "probe.release_at_limit", "probe.payload_roundtrip", "probe.server_write_backpressure", "probe.server_vectored_write", "probe.server_vectored_write_partial", "probe.server_vectored_write_cut_in_second_slice", "probe.two_backends_on_one_thread", "probe.server_shutdown_completed", "probe.shutdown_under_backpressure", "probe.vectored_write_empty_first_slice", "probe.read_into_partly_filled_buffer"]
         } else {
             connsim::required_probes()
         }
